@@ -536,6 +536,14 @@ def remoteOptions (src : Bytes) : Option (List (List Nat × Val)) :=
   | none => none
   | some text => evalOptions (text.length + 1) text
 
+/-! ## entering `server.main` -/
+
+/-- `main(options.a₁, options.a₂, …)` at the end of `assembler.py`, bound against the
+parameter list of `server.main`: parameter `pᵢ` receives the attribute `bindingᵢ` of the
+assembled options module (`none` = no such attribute / parameter left unbound). -/
+def enterMain (params binding : List String) (ns : String → Option Val) : List (String × Option Val) :=
+  params.zip (binding.map ns)
+
 /-! ## order of writes in `client._main` -/
 
 inductive Ev
